@@ -20,11 +20,12 @@
 //                   kind 0 well signed, 1 bad signature, 2 other set id, 3 round+1, 4 round-1, 5 round+5
 //        o<p|c>.<block>     the node's own vote, stored directly
 //        G | P | B | F      getPreVotedBlock | determinePreCommit | getBestFinalCandidate | attemptToFinalize
+//        V                  determinePreVote (the round's primary is voter c21Round mod nvoters)
 // observed: one entry per op, joined by ","
 //     m, o : <class>/<prevotes>/<precommits>/<pv equivocators>/<pc equivocators>
 //             votes: "+"-joined voter.block.number sorted by voter, equivocators: voter.count ; "-" if empty
 //             class 0 = accepted, else the error class (see c21Class)
-//     G,P,B: <block>.<number> | e<class>
+//     G,P,B,V: <block>.<number> | e<class>
 //     F    : 0/h<head> | 1.<block>/h<head> | e<class>/h<head>
 package grandpa
 
@@ -482,6 +483,13 @@ func c21Run(in string) string {
 				} else {
 					out = append(out, voteStr(v))
 				}
+			case 'V':
+				v, err := s.determinePreVote()
+				if err != nil {
+					out = append(out, fmt.Sprintf("e%x", c21Class(err)))
+				} else {
+					out = append(out, voteStr(*v))
+				}
 			case 'P':
 				v, err := s.determinePreCommit()
 				if err != nil {
@@ -595,7 +603,7 @@ func c21Ops(r *vu.RNG, parents []uint64, n, self, head int, malformed int, wrong
 	k := len(parents) + 1
 	below := c21Below(parents, head)
 	var ops []string
-	queries := []string{"G", "P", "B", "F"}
+	queries := []string{"G", "P", "B", "F", "V"}
 	pickBlock := func(focus []int) int {
 		switch r.Intn(8) {
 		case 0:
@@ -803,11 +811,93 @@ func c21Exhaustive(r *vu.RNG, budget int, emit func(string)) {
 	}
 }
 
+// Directed at the finalisation rule (class of seeded/C21-m2): the node's prevote ghost g lies
+// strictly BELOW a block c that collects > 2/3 of the precommits (some prevotes are delayed: just
+// enough voters prevote g or c for g to have a supermajority, c does not).  The block to finalise
+// is g, not c.  Variants: c on a fork off g's chain below g (then the common ancestor), a pending
+// change, precommits split over descendants of c.
+func c21DelayedPrevotes(r *vu.RNG) string {
+	n := 4 + r.Intn(4)
+	need := 2*n/3 + 1
+	self := r.Intn(n)
+	// a chain 0 - 1 - ... - d with side forks
+	d := 2 + r.Intn(3)
+	var parents []uint64
+	for i := 1; i <= d; i++ {
+		parents = append(parents, uint64(i-1))
+	}
+	gi := 1 + r.Intn(d-1) // ghost: block gi, 1 <= gi < d
+	c := gi + 1 + r.Intn(d-gi)
+	extra := r.Intn(3)
+	for i := 0; i < extra; i++ { // side forks anywhere
+		parents = append(parents, uint64(r.Intn(len(parents)+1)))
+	}
+	k := len(parents) + 1
+	if r.Chance(1, 4) && extra > 0 { // c on a side fork
+		c = d + 1 + r.Intn(extra)
+	}
+	var others []int
+	for v := 0; v < n; v++ {
+		if v != self {
+			others = append(others, v)
+		}
+	}
+	for i := len(others) - 1; i > 0; i-- {
+		j := r.Intn(i + 1)
+		others[i], others[j] = others[j], others[i]
+	}
+	var ops []string
+	// prevotes: need voters in total on g's subtree, fewer than need on c
+	onC := r.Intn(need) // 0 .. need-1
+	cnt := 0
+	for _, v := range others {
+		if cnt >= need {
+			break
+		}
+		b := gi
+		if cnt < onC {
+			b = c
+		}
+		ops = append(ops, fmt.Sprintf("mp%x.%x.0.0", v, b))
+		cnt++
+	}
+	if cnt < need { // n - 1 < need cannot happen for n >= 4, kept for safety
+		ops = append(ops, fmt.Sprintf("op.%x", gi))
+	}
+	// precommits: need voters on c (or its descendants)
+	below := c21Below(parents, c)
+	cnt = 0
+	for i := len(others) - 1; i >= 0 && cnt < need; i-- {
+		ops = append(ops, fmt.Sprintf("mc%x.%x.0.0", others[i], below[r.Intn(len(below))]))
+		cnt++
+	}
+	if r.Chance(1, 2) {
+		for i := len(ops) - 1; i > 0; i-- {
+			j := r.Intn(i + 1)
+			ops[i], ops[j] = ops[j], ops[i]
+		}
+	}
+	ops = append(ops, "G", "B", "F")
+	nc := "-"
+	if r.Chance(1, 4) {
+		nc = vu.X(uint64(1 + r.Intn(d)))
+	}
+	best := d
+	if r.Chance(1, 3) {
+		best = r.Intn(k)
+	}
+	return fmt.Sprintf("g %s %x %x 0 %x %s %s", c21Join(parents), n, self, best, nc, strings.Join(ops, ","))
+}
+
 func c21Gen(r *vu.RNG, n int, emit func(string)) {
 	if vu.Thorough() {
 		c21Exhaustive(r.Fork(), 400000, emit)
 	}
 	for i := 0; i < n; i++ {
+		if i%20 == 7 {
+			emit(c21DelayedPrevotes(r.Fork()))
+			continue
+		}
 		switch r.Intn(10) {
 		case 0, 1, 2, 3, 4: // mostly valid
 			emit(c21Case(r, 8, 8, 0))
